@@ -688,6 +688,9 @@ func verifFamJoin(b *verifB) {
 
 func verifFamSetOp(b *verifB) {
 	b.kind, b.entry = "QueryStatement", verifEQuery
+	if b.opt() {
+		b.hint() // statement hint, also directly in front of a parenthesised operand
+	}
 	// the first and the last operand may be parenthesised, once or twice
 	d1 := b.alt(3)
 	for i := 0; i < d1; i++ {
@@ -743,6 +746,9 @@ func verifFamSetOp(b *verifB) {
 
 func verifFamPipe(b *verifB) {
 	b.kind, b.entry = "QueryStatement", verifEQuery
+	if b.opt() {
+		b.hint()
+	}
 	if b.opt() {
 		b.w("SELECT")
 		b.p("a")
